@@ -128,10 +128,25 @@ func (c *Ctx) lockConsistency(rel, typeName string, fields []string, rulePrefix 
 	}
 	st, _ := tn.Type().Underlying().(*types.Struct)
 	hasMutex := false
+	present := map[string]bool{}
+	var shared []string // every map or slice field: the state the methods share
 	for i := 0; st != nil && i < st.NumFields(); i++ {
-		ts := st.Field(i).Type().String()
+		f := st.Field(i)
+		ts := f.Type().String()
 		if ts == "sync.Mutex" || ts == "sync.RWMutex" {
 			hasMutex = true
+		}
+		present[f.Name()] = true
+		switch f.Type().Underlying().(type) {
+		case *types.Map, *types.Slice:
+			shared = append(shared, f.Name())
+		}
+	}
+	// the pinned field names are tried first; if a field was renamed, the shared state is every map/slice field
+	for _, f := range fields {
+		if !present[f] {
+			fields = shared
+			break
 		}
 	}
 	run.Oblige(hasMutex)
@@ -345,9 +360,96 @@ func CheckC12(c *Ctx) {
 		c.violate("sync/jobs", site, "job channel", fi.Decl.Pos(), "the workers no longer share one channel of all asset names created before they start: assets may be skipped or synchronised twice")
 		return
 	}
+	// The per-asset work may have been moved into an unexported method called with the asset name:
+	// then the rules below look at that method's body, with its parameters mapped to Run's.
+	procBody := loop.Body
+	procInfo := info
+	sourceObj, targetObj := types.Object(nil), types.Object(nil)
+	var defaultObj types.Object
+	nameObj := info.ObjectOf(loop.Key.(*ast.Ident))
+	{
+		sig := fi.Fn.Type().(*types.Signature)
+		if sig.Params().Len() >= 3 {
+			sourceObj, targetObj, defaultObj = sig.Params().At(0), sig.Params().At(1), sig.Params().At(2)
+		}
+	}
+	var procCall *ast.CallExpr
+	var procIf *ast.IfStmt
+	hasLastDate := false
+	ast.Inspect(loop.Body, func(n ast.Node) bool {
+		if call, ok := n.(*ast.CallExpr); ok && strings.HasSuffix(calleeName(info, call), ".LastDate") {
+			hasLastDate = true
+		}
+		return true
+	})
+	if !hasLastDate {
+		for _, st := range loop.Body.List {
+			is, ok := st.(*ast.IfStmt)
+			if !ok || is.Else != nil {
+				continue
+			}
+			u, isNot := ast.Unparen(is.Cond).(*ast.UnaryExpr)
+			if !isNot || u.Op != token.NOT {
+				continue
+			}
+			call, isCall := ast.Unparen(u.X).(*ast.CallExpr)
+			if !isCall {
+				continue
+			}
+			fn := callee(info, call)
+			if fn == nil || fn.Exported() {
+				continue
+			}
+			dfi := c.P.Decls[fn.Origin()]
+			if dfi == nil || dfi.Decl.Body == nil || dfi.Decl.Type.Params == nil {
+				continue
+			}
+			// map the callee's parameters to Run's source, target, default date and the asset name
+			var pobjs []types.Object
+			for _, f := range dfi.Decl.Type.Params.List {
+				for _, nm := range f.Names {
+					pobjs = append(pobjs, dfi.Pkg.TypesInfo.Defs[nm])
+				}
+			}
+			if len(pobjs) != len(call.Args) {
+				continue
+			}
+			var s2, t2, d2, n2 types.Object
+			for i, a := range call.Args {
+				if id, isID := a.(*ast.Ident); isID {
+					switch info.ObjectOf(id) {
+					case sourceObj:
+						s2 = pobjs[i]
+					case targetObj:
+						t2 = pobjs[i]
+					case defaultObj:
+						d2 = pobjs[i]
+					case nameObj:
+						n2 = pobjs[i]
+					}
+				}
+			}
+			if s2 != nil && t2 != nil && d2 != nil && n2 != nil {
+				procBody, procInfo, procCall, procIf = dfi.Decl.Body, dfi.Pkg.TypesInfo, call, is
+				sourceObj, targetObj, defaultObj, nameObj = s2, t2, d2, n2
+			}
+		}
+	}
+	_ = procCall
+	isRecv := func(fun ast.Expr, obj types.Object) bool {
+		sel, ok := fun.(*ast.SelectorExpr)
+		if !ok {
+			return false
+		}
+		id, ok := sel.X.(*ast.Ident)
+		return ok && obj != nil && procInfo.ObjectOf(id) == obj
+	}
 	// start-date rule
 	var lastDateObj types.Object
 	startOK := false
+	loopBody := loop.Body
+	loop = &ast.RangeStmt{For: loop.For, Key: loop.Key, Value: loop.Value, Tok: loop.Tok, X: loop.X, Body: procBody}
+	info = procInfo
 	for i, s := range loop.Body.List {
 		as, ok := s.(*ast.AssignStmt)
 		if !ok || len(as.Rhs) != 1 {
@@ -393,7 +495,7 @@ func CheckC12(c *Ctx) {
 					if as2, ok := n.(*ast.AssignStmt); ok && len(as2.Lhs) == 1 && len(as2.Rhs) == 1 {
 						if l, ok := as2.Lhs[0].(*ast.Ident); ok && info.Uses[l] == lastDateObj {
 							if r, ok := as2.Rhs[0].(*ast.Ident); ok {
-								if v, ok := info.Uses[r].(*types.Var); ok && isParamOf(fi, v) {
+								if v, ok := info.Uses[r].(*types.Var); ok && (types.Object(v) == defaultObj || (procIf == nil && isParamOf(fi, v))) {
 									elseOK = true
 								}
 							}
@@ -422,16 +524,16 @@ func CheckC12(c *Ctx) {
 			return true
 		}
 		name := calleeName(info, call)
-		if strings.HasSuffix(name, ".GetSince") && len(call.Args) == 2 && recvIsParam(info, fi, call.Fun, 0) {
+		if strings.HasSuffix(name, ".GetSince") && len(call.Args) == 2 && isRecv(call.Fun, sourceObj) {
 			if id, ok := call.Args[1].(*ast.Ident); ok && info.Uses[id] == lastDateObj {
 				if l, ok := as.Lhs[0].(*ast.Ident); ok {
 					snapsObj = info.Defs[l]
 				}
 			}
 		}
-		if strings.HasSuffix(name, ".Append") && len(call.Args) == 2 && recvIsParam(info, fi, call.Fun, 1) {
+		if strings.HasSuffix(name, ".Append") && len(call.Args) == 2 && isRecv(call.Fun, targetObj) {
 			if id, ok := call.Args[1].(*ast.Ident); ok && snapsObj != nil && info.Uses[id] == snapsObj {
-				if exprString(call.Args[0]) == exprString(loop.Key) {
+				if nid, ok := call.Args[0].(*ast.Ident); ok && info.ObjectOf(nid) == nameObj {
 					flowOK = true
 				}
 			}
@@ -471,20 +573,19 @@ func CheckC12(c *Ctx) {
 			continue // not of the form `if err != nil { ... }`
 		}
 		nErr++
-		sets := ""
-		ast.Inspect(is.Body, func(n ast.Node) bool {
-			switch x := n.(type) {
-			case *ast.AssignStmt:
-				if len(x.Lhs) == 1 && len(x.Rhs) == 1 && exprString(x.Rhs[0]) == "true" {
-					sets = exprString(x.Lhs[0])
-				}
-			case *ast.CallExpr:
-				if sel, ok := x.Fun.(*ast.SelectorExpr); ok && sel.Sel.Name == "Store" && len(x.Args) == 1 && exprString(x.Args[0]) == "true" {
-					sets = exprString(sel.X)
-				}
+		if procIf != nil {
+			// the per-asset method reports a failure by returning false; its caller records it
+			good := false
+			if r, ok := is.Body.List[len(is.Body.List)-1].(*ast.ReturnStmt); ok && len(r.Results) == 1 && exprString(r.Results[0]) == "false" {
+				good = true
 			}
-			return true
-		})
+			run.Oblige(good)
+			if !good {
+				c.violate("sync/fault-isolation", site, "error branch", is.Pos(), "a failed source read or target append must make the per-asset method report failure (return false)")
+			}
+			continue
+		}
+		sets := recordsFailure(is.Body)
 		k, _ := endsWithExit(is.Body)
 		leaves := false
 		ast.Inspect(is.Body, func(n ast.Node) bool {
@@ -507,6 +608,34 @@ func CheckC12(c *Ctx) {
 			c.violate("sync/fault-isolation", site, "error branch", is.Pos(), "an error for one asset must be recorded and the loop must continue with the next asset; this branch "+map[bool]string{true: "leaves the loop", false: "does not record the failure"}[leaves || k != "continue"])
 		}
 	}
+	if procIf != nil {
+		// the caller: if !syncAsset(...) { record; continue }, and the method's last statement returns true
+		sets := recordsFailure(procIf.Body)
+		k, _ := endsWithExit(procIf.Body)
+		leaves := false
+		ast.Inspect(procIf.Body, func(n ast.Node) bool {
+			switch x := n.(type) {
+			case *ast.ReturnStmt:
+				leaves = true
+			case *ast.BranchStmt:
+				if x.Tok == token.BREAK {
+					leaves = true
+				}
+			}
+			return true
+		})
+		lastTrue := false
+		if r, ok := procBody.List[len(procBody.List)-1].(*ast.ReturnStmt); ok && len(r.Results) == 1 && exprString(r.Results[0]) == "true" {
+			lastTrue = true
+		}
+		good := sets != "" && (k == "continue" || k == "") && !leaves && lastTrue
+		run.Oblige(good)
+		flag = sets
+		if !good {
+			c.violate("sync/fault-isolation", site, "error branch", procIf.Pos(), "when the per-asset method reports failure the worker must record it and go on with the next asset")
+		}
+	}
+	_ = loopBody
 	run.Count("sync_error_branches", nErr)
 	run.Floor("sync_error_branches", 2)
 	// wg.Wait() then `if flag { return error }; return nil`
@@ -569,7 +698,13 @@ func CheckC13(c *Ctx) {
 	run.Explanation = "Equality of the reported numbers with a direct evaluation is NOT decided. Decided structurally: Begin is called before any worker starts and End after wg.Wait(); in the worker, for every asset, AssetBegin precedes the strategy loop and AssetEnd follows it; each iteration of the strategy loop calls report.Write exactly once, with the outputs of strategy.ComputeWithOutcome for that strategy on a fresh SliceToChan of that asset's snapshots (no iteration can skip it); all assets flow through one channel shared by the workers. The SSA shared-write analysis shows that nothing reachable from `go b.worker` (including both bundled Report implementations, resolved through the interface by CHA) writes shared memory without holding a mutex, and in both report types every access to the shared maps/slices happens under the mutex. Functions passed to slices.SortFunc / sort.Slice must be total orders on the compared field: no conversion of a floating-point difference to int (results closer than 1 would compare equal, so the entry presented as best need not be maximal). No run crashes: every slice index in package backtest is the key of a range over that slice, a constant below the constant element count of helper.Duplicate, or protected by a length check; the rule is exercised on a built-in positive example on every run."
 	run.Trusted = []string{"go/types", "go/ssa + CHA", "sync.Mutex semantics"}
 	runFi := c.fn("backtest", "Backtest", "Run")
-	wFi := c.fn("backtest", "Backtest", "worker")
+	wFi := c.P.Method("backtest", "Backtest", "worker")
+	if wFi == nil {
+		wFi = c.goMethod(runFi) // the method Run starts with `go`, whatever it is called now
+	}
+	if wFi == nil {
+		c.Run.Break("anchor missing: the worker method started by backtest.(Backtest).Run")
+	}
 	if runFi == nil || wFi == nil {
 		return
 	}
@@ -590,7 +725,7 @@ func CheckC13(c *Ctx) {
 				pos["Wait"] = x.Pos()
 			}
 		case *ast.GoStmt:
-			if strings.HasSuffix(calleeName(info, x.Call), "(Backtest).worker") {
+			if fn := callee(info, x.Call); fn != nil && fn.Origin() == wFi.Fn.Origin() {
 				pos["go"] = x.Pos()
 			}
 		}
@@ -1183,4 +1318,23 @@ func recvIsParam(info *types.Info, fi *load.FuncInfo, fun ast.Expr, k int) bool 
 	}
 	sig := fi.Fn.Type().(*types.Signature)
 	return k < sig.Params().Len() && info.ObjectOf(id) == sig.Params().At(k)
+}
+
+// recordsFailure: the expression of the flag a block sets to true (x = true / x.Store(true)), "" if none.
+func recordsFailure(b *ast.BlockStmt) string {
+	sets := ""
+	ast.Inspect(b, func(n ast.Node) bool {
+		switch x := n.(type) {
+		case *ast.AssignStmt:
+			if len(x.Lhs) == 1 && len(x.Rhs) == 1 && exprString(x.Rhs[0]) == "true" {
+				sets = exprString(x.Lhs[0])
+			}
+		case *ast.CallExpr:
+			if sel, ok := x.Fun.(*ast.SelectorExpr); ok && sel.Sel.Name == "Store" && len(x.Args) == 1 && exprString(x.Args[0]) == "true" {
+				sets = exprString(sel.X)
+			}
+		}
+		return true
+	})
+	return sets
 }
